@@ -9,7 +9,7 @@ from engine.sx import SNum, Polar, zand, _z, _real
 
 PROPERTY = "C04"
 BOUNDS = {
-    "quick": "grids 2x3, 3x4, 4x4; phase factors: sampling, thickness (any sign), wavelength > 0 symbolic; aperture and complete propagator: sampling (1/5,1/5) and (1/4,3/10) A as exact constants, thickness and wavelength symbolic; potential values symbolic; propagator orders 1 and 2",
+    "quick": "grids 2x3, 3x4, 4x4; phase factors: sampling, thickness (any sign), wavelength > 0 symbolic; aperture and complete propagator: sampling (1/5,1/5) and (1/4,3/10) A as exact constants, thickness and wavelength symbolic; potential values symbolic; propagator orders 1 and 2; tilted beams: symbolic base tilt in [-100, 100] mrad per axis on 2x3 and 3x4 grids (modulus and dz / -dz reversibility)",
     "thorough": "grids up to 6x6",
 }
 OUTSIDE = ["FFT round-off and Parseval's theorem (intensity after a step = sum |K psi^|^2 is the stated model: it suffices that every Fourier multiplier has modulus <= 1)",
@@ -143,6 +143,55 @@ def R_P(gpts, order):
 """, GPTS=tuple(gpts), ORDER=order)
 
 
+def _tilted(gpts, order, which):
+    """complete propagator of a TILTED beam: still modulus = aperture, and -dz still undoes dz (symbolic tilt, thickness of any sign)"""
+    rp = R_PT(gpts, order)
+
+    def fn(c):
+        c.pc += sx.pi_axioms() + [LAM > 0]
+        a, b = c.real("dx"), c.real("dy")
+        sv = tuple(z3.RealVal(x) for x in SAMPLINGS[which])
+        c.assume(_z(a) == sv[0]); c.assume(_z(b) == sv[1])
+        samp = (SNum(sv[0]), SNum(sv[1]))
+        dz = c.real("dz")
+        tx, ty = c.real("tx", -100, 100), c.real("ty", -100, 100)
+        A = AA.antialias_aperture(gpts, samp, patch.shim())
+        w = mk_waves(gpts, samp, tilt=(tx, ty))
+        full = MS.FresnelPropagator._calculate_array(w, dz, order=order)
+        back = MS.FresnelPropagator._calculate_array(w, -dz, order=order)
+        ok, rev = [], []
+        for i in np.ndindex(full.shape):
+            a2 = _real(_z(A[i])) * _real(_z(A[i]))
+            ok.append(sx.cabs2(full[i]) == a2)
+            p = full[i] * back[i]
+            rev.append(zand(sx.turns_mod1_eq(p.tau, 0), p.amp == a2) if isinstance(p, Polar) else z3.BoolVal(False))
+        c.prove("tilted_propagator.modulus_is_aperture", zand(*ok), replay=rp)
+        c.prove("tilted_propagator.dz_then_minus_dz_is_identity_inside_aperture", zand(*rev), replay=rp)
+        c.canary("tilted_propagator.canary_tilt_has_no_effect", zand(*[sx.turns_mod1_eq(full[i].tau, MS.FresnelPropagator._calculate_array(mk_waves(gpts, samp), dz, order=order)[i].tau)
+                                                                    for i in np.ndindex(full.shape) if isinstance(full[i], Polar)]))
+    return fn
+
+
+def R_PT(gpts, order):
+    return make("""
+    from abtem.multislice import FresnelPropagator
+    from abtem.antialias import antialias_aperture
+    from abtem.core.energy import energy2wavelength
+    import abtem
+    dx, dy, dz = float(V['dx']), float(V['dy']), float(V['dz'])
+    tx, ty = float(V.get('tx', 20.0)) or 20.0, float(V.get('ty', -10.0))
+    lam = energy2wavelength(100e3)
+    dz = np.sign(dz) * min(max(abs(dz), 1.0), 20.0) if dz != 0 else 2.0
+    A = antialias_aperture(GPTS, (dx, dy), np)
+    w = abtem.PlaneWave(gpts=GPTS, sampling=(dx, dy), energy=100e3, tilt=(tx, ty)).build(lazy=False)
+    F1 = FresnelPropagator._calculate_array(w, dz, order=ORDER); F2 = FresnelPropagator._calculate_array(w, -dz, order=ORDER)
+    F1 = np.asarray(F1).reshape(GPTS); F2 = np.asarray(F2).reshape(GPTS)
+    if np.abs(np.abs(F1) - A).max() > 1e-5: bad, why = True, "tilted propagator: modulus is not the aperture"
+    inside = A > 1 - 1e-6
+    if inside.any() and np.abs((F1 * F2)[inside] - 1).max() > 1e-3: bad, why = True, f"tilt ({tx}, {ty}) mrad: dz = {dz} then -dz is not the identity inside the aperture (|K(dz)K(-dz) - 1| = {np.abs((F1 * F2)[inside] - 1).max()})"
+""", GPTS=tuple(gpts), ORDER=order)
+
+
 def _transmission(c):
     c.pc += sx.pi_axioms() + [SIG > 0]
     Vv = sx.sym_array(c, "v", (2, 2, 2))
@@ -172,5 +221,8 @@ def cases(tier):
             for which in SAMPLINGS:
                 out.append(Case(f"propagator.{g[0]}x{g[1]}.order{order}.{which}", _propagator(g, order, which), setup=_setup, max_paths=3000,
                                 budget_s=240 if q else 1500))
+    for g in ((2, 3), (3, 4)) if q else ((2, 3), (3, 4), (4, 4)):
+        for order in (1, 2):
+            out.append(Case(f"tilted.{g[0]}x{g[1]}.order{order}.aniso", _tilted(g, order, "aniso"), setup=_setup, max_paths=3000, budget_s=240 if q else 1500))
     out.append(Case("transmission", _transmission, setup=_setup))
     return out
